@@ -1,0 +1,79 @@
+//go:build verif
+// +build verif
+
+// Verification hook for C14 (build tag "verif"): an exported in-process
+// "run a play" entry point = the body of TestRun (run_test.go), for plays
+// under the race detector.  Only adds an exported wrapper around cfg.run.
+
+package cmd
+
+import (
+	"context"
+	"fmt"
+	"io/ioutil"
+	"os"
+	"os/exec"
+	"path/filepath"
+	"strings"
+	"time"
+
+	"github.com/knz/shakespeare/pkg/crdb/timeutil"
+)
+
+// VerifRun parses and compiles cfgText and runs the play in-process with
+// cfg.run, as TestRun does: own data directory, logging initialisation
+// skipped (the caller holds a log scope), deterministic narration.  Unlike
+// TestRun, the plot scripts are written (assemble and plot read what the play
+// collected; gnuplot itself is not run), and the narration goes to a file, as
+// a real play's goes to os.Stdout (TestRun's bytes.Buffer is written from
+// several goroutines, a race in the test's stub, not in the play).
+func VerifRun(cfgText string, earlyExit bool, timeout time.Duration) (errText string, narration string) {
+	rd, err := newReaderFromString("<verif>", cfgText)
+	if err != nil {
+		return "reader: " + err.Error(), ""
+	}
+	defer rd.close()
+	cfg := newConfig()
+
+	workDir, err := ioutil.TempDir("", "shk-verif-run")
+	if err != nil {
+		return "tempdir: " + err.Error(), ""
+	}
+	defer os.RemoveAll(workDir)
+	cfg.dataDir = workDir
+	cfg.subDir = "results"
+
+	cfg.shellPath, err = exec.LookPath("bash")
+	if err != nil {
+		return "bash: " + err.Error(), ""
+	}
+	if err := cfg.parseCfg(context.TODO(), rd); err != nil {
+		return "parse error: " + renderError(err), ""
+	}
+	if err := cfg.compileV2(); err != nil {
+		return "compile error: " + renderError(err), ""
+	}
+
+	cfg.skipLoggingInit = true
+	cfg.avoidTimeProgress = true
+	cfg.earlyExit = earlyExit
+	cfg.gnuplotPath = filepath.Join(workDir, "no-such-gnuplot")
+
+	ctx, bye := context.WithDeadline(context.TODO(), timeutil.Now().Add(timeout))
+	defer bye()
+
+	out, err := os.Create(filepath.Join(workDir, "narration.txt"))
+	if err != nil {
+		return "narration: " + err.Error(), ""
+	}
+	defer out.Close()
+	cfg.narration = out
+
+	err = cfg.run(ctx)
+
+	if err != nil {
+		errText = fmt.Sprintf("run error: %s", renderError(err))
+	}
+	b, _ := ioutil.ReadFile(filepath.Join(workDir, "narration.txt"))
+	return errText, strings.ReplaceAll(string(b), workDir, "...")
+}
